@@ -28,7 +28,7 @@ echo "--- (a) existing suite with the change"
 A=$(cd $R && { timeout 600 cargo test --offline --test fasta --test fastq --lib 2>&1; timeout 600 cargo test --offline --doc 2>&1; } | grep -E "^test result" | tr '\n' ' ')
 echo "$A"
 echo "--- (b) demo with the change"
-B=$(cd $R && timeout 600 cargo test --offline $TESTARGS 2>&1 | grep -E "^test result|panicked|timed out" | head -8 | tr '\n' ' ')
+B=$(cd $R && timeout 600 cargo test --offline $TESTARGS 2>&1 | grep -E "^test result|panicked|timed out|SIGABRT|SIGSEGV|overflowed its stack" | head -8 | tr '\n' ' ')
 echo "$B"
 git -C $R checkout -q -- . ; git -C $R clean -fdq -e target
 echo "--- checks"
@@ -41,7 +41,7 @@ caught=[(k,r or 'process_killed') for k,r in re.findall(r'\[(C\d+)\] CAUGHT: VIO
 missed=re.findall(r'\[(C\d+)\] missed',res)
 ok_c=('FAILED' not in c and 'failed; ' in c and all(int(x)==0 for x in re.findall(r'(\d+) failed',c)))
 ok_a=all(int(x)==0 for x in re.findall(r'(\d+) failed',a)) and 'test result' in a
-ok_b=any(int(x)>0 for x in re.findall(r'(\d+) failed',b)) or 'panicked' in b or 'timed out' in b
+ok_b=any(int(x)>0 for x in re.findall(r'(\d+) failed',b)) or 'panicked' in b or 'timed out' in b or 'SIGABRT' in b or 'SIGSEGV' in b or 'overflowed its stack' in b
 meta={"property":prop,"source":"independent sub-agent (given only the property text and a scratch worktree)","needs_to_manifest":needs,
  "confirmed":{"suite_passes_with_change":ok_a,"demo_fails_with_change":ok_b,"demo_passes_without_change":ok_c,
    "ran":["cargo test --offline --test <demo>   (without the change): "+c.strip(),"cargo test --offline --test fasta --test fastq --lib; cargo test --offline --doc   (with the change): "+a.strip(),"cargo test --offline --test <demo>   (with the change): "+b.strip()[:300]]},
